@@ -71,7 +71,7 @@ def run(tier, replay_file=None):
     R.cov["stream_histories"] = len(hs)
     hx = stream_enumeration()
     import random as _r
-    hx = hx if not quick else _r.Random(common.seed()).sample(hx, min(len(hx), 150))
+    hx = _r.Random(common.seed()).sample(hx, min(len(hx), 150 if quick else 2500))
     sets.append((hx, True))
     R.cov["stream_interleavings_enumerated"] = len(hx)
     # instance life cycles: an instance that began a session with settings is stopped (or just sits there) while another
@@ -107,13 +107,18 @@ def run(tier, replay_file=None):
     sets.append((sets[0][0][:6], "files"))
     # ... and on a server whose factory registers ONE Model object, built once, with every instance (a module-level model)
     sets.append((hl, "shared"))
-    sets.append((hb[::max(1, len(hb) // 40)] if quick else hb, "shared"))
+    sets.append((hb[::max(1, len(hb) // (40 if quick else 400))], "shared"))
     R.cov["shared_model_object_histories"] = len(sets[-1][0]) + len(sets[-2][0])
     compared = 0
+    import time as _time
+    t_end = _time.time() + (20 * 60 if quick else 45 * 60)        # the replays of one run are bounded in time (recorded when reached)
     for hs, bc in sets:
         files, shared = bc == "files", bc == "shared"
         bc = True if files else False if shared else bc       # the file lists the scenario's constants, so a parsed-file cache would hand out ONE dictionary
-        for hist in hs:
+        for hn, hist in enumerate(hs):
+            if _time.time() > t_end:
+                R.cov["time_budget_reached_histories_skipped"] = R.cov.get("time_budget_reached_histories_skipped", 0) + len(hs) - hn
+                break
             obs = []
             bad = srv_replay.replay(hist, stop=3, adapter=False, base_constants=bc, observe=obs, files=files, shared=shared)
             R.add("traces_validated_against_impl")
